@@ -458,6 +458,77 @@ func runC17(ctx *Ctx, idx int) {
 		}
 		ctx.Nontrivial(fmt.Sprintf("whole|chips%d|chipsWithoutTemps%d|order%v|%v|%v", len(t.Chips), fanOnly, t.Order, fsels, ssels))
 	}
+	// ---- whole configurations in which exactly one hwmon fan entry names no device, at every position among entries
+	// that can be created (hwmon fans that exist, a file fan): start-up must fail with an error naming that entry,
+	// whatever comes before or after it
+	for k := 0; k < 2; k++ {
+		var good []c17FanSel
+		for tries := 0; tries < 60 && len(good) < 2; tries++ {
+			sel := c17FanSel{Chip: r.Intn(len(t.Chips))}
+			if r.Intn(2) == 0 {
+				sel.RpmChannel = 1 + r.Intn(13)
+			} else {
+				sel.Index = 1 + r.Intn(13)
+			}
+			if _, _, _, ok := t.refFan(root, sel); ok {
+				good = append(good, sel)
+			}
+		}
+		bad := c17FanSel{Chip: -1, Index: 1}
+		badCls := "unknown-platform"
+		for tries := 0; tries < 60 && r.Intn(4) > 0; tries++ {
+			sel := c17FanSel{Chip: r.Intn(len(t.Chips))}
+			cls := "missing-index"
+			if r.Intn(2) == 0 {
+				sel.RpmChannel = 1 + r.Intn(14)
+				cls = "missing-rpmChannel"
+			} else {
+				sel.Index = 1 + r.Intn(14)
+			}
+			if _, _, _, ok := t.refFan(root, sel); !ok {
+				bad, badCls = sel, cls
+				break
+			}
+		}
+		sensorFile := filepath.Join(root, "filesensor")
+		_ = os.WriteFile(sensorFile, []byte("40000\n"), 0644)
+		fanFile := filepath.Join(root, "filefan2")
+		_ = os.WriteFile(fanFile, []byte("100\n"), 0644)
+		cfg := configuration.Configuration{
+			Sensors: []configuration.SensorConfig{{ID: "msensor", File: &configuration.FileSensorConfig{Path: sensorFile}}},
+			Curves:  []configuration.CurveConfig{{ID: "mcurve", Linear: &configuration.LinearCurveConfig{Sensor: "msensor", Min: 40, Max: 80}}},
+		}
+		for j, sel := range good {
+			cfg.Fans = append(cfg.Fans, configuration.FanConfig{ID: fmt.Sprintf("mfan-%d-%d-%d", idx, k, j), Curve: "mcurve", HwMon: &configuration.HwMonFanConfig{Platform: t.platform(sel.Chip), Index: sel.Index, RpmChannel: sel.RpmChannel}})
+		}
+		cfg.Fans = append(cfg.Fans, configuration.FanConfig{ID: fmt.Sprintf("mfilefan-%d-%d", idx, k), Curve: "mcurve", File: &configuration.FileFanConfig{Path: fanFile}})
+		badId := fmt.Sprintf("mbadfan-%d-%d", idx, k)
+		pos := r.Intn(len(cfg.Fans) + 1)
+		badEntry := configuration.FanConfig{ID: badId, Curve: "mcurve", HwMon: &configuration.HwMonFanConfig{Platform: t.platform(bad.Chip), Index: bad.Index, RpmChannel: bad.RpmChannel}}
+		cfg.Fans = append(cfg.Fans[:pos], append([]configuration.FanConfig{badEntry}, cfg.Fans[pos:]...)...)
+		where := "last"
+		if pos < len(cfg.Fans)-1 {
+			where = "followed-by-creatable-entries"
+		}
+		configuration.CurrentConfig = cfg
+		reg := prometheus.NewRegistry()
+		prometheus.DefaultRegisterer, prometheus.DefaultGatherer = reg, reg
+		var err error
+		p, msg := Guard(func() { _, err = internal.InitializeObjects() })
+		ctx.Eval(1)
+		replay := map[string]interface{}{"tree": t, "fans": good, "bad": bad, "position": pos, "entries": len(cfg.Fans)}
+		switch {
+		case p:
+			ctx.Violation("fans:panic:several-entries", firstLines(msg, 6), replay)
+		case err == nil:
+			ctx.Violation("fans:non-existing-device-silently-accepted:"+badCls+":"+where, fmt.Sprintf("%s: start-up succeeded", jsonStr(replay)), replay)
+		case !strings.Contains(err.Error(), badId):
+			ctx.Violation("fans:error-does-not-name-the-entry:several-entries", fmt.Sprintf("%s: %v", jsonStr(replay), err), replay)
+		default:
+			ctx.Count("fan_entries_without_device_rejected_among_others", 1)
+			ctx.Nontrivial(fmt.Sprintf("badfan|%s|pos%d/%d|chips%d|%v", badCls, pos, len(cfg.Fans), len(t.Chips), bad))
+		}
+	}
 	if idx < 2 {
 		ctx.Sample(map[string]interface{}{"tree": t})
 	}
